@@ -33,7 +33,7 @@ PopBatch(ms) == IF ms = <<>> THEN <<ms, <<>>>>
 FlushNext ==        \* enqueue_next_merge_batch
   /\ MARun /\ pending = <<>> /\ flushing
   /\ LET pb == PopBatch(mstack) IN
-     IF pb[2] = <<>> THEN mst' = "ok" /\ mstack' = pb[1] /\ UNCHANGED <<pending, flushing>>
+     IF pb[2] = <<>> THEN mst' = "ok" /\ mstack' = pb[1] /\ flushing' = FALSE /\ UNCHANGED pending    \* `self.flushing_merges = false; return Ok(None)`
      ELSE mstack' = pb[1] /\ pending' = pb[2] /\ UNCHANGED <<mst, flushing>>
   /\ UNCHANGED <<mpos, seen, yields>>
 KeyLive ==          \* `match self.ev.peek()`
@@ -54,6 +54,17 @@ KeyLive ==          \* `match self.ev.peek()`
         ELSE /\ yields' = Append(yields, mpos) /\ seen' = seen \cup {f}
              /\ mpos' = E(doc, vs) + 1 /\ UNCHANGED <<mstack, pending, flushing, mst>>
 MANext == KeyPending \/ FlushNext \/ KeyLive
+
+(* which branch of the loop in next_key_seed the machine takes next (the names the step hook logs): *)
+(* KP an entry popped from the pending queue, FL the next merge batch requested, KL the live stream *)
+Label ==
+  IF pending # <<>> THEN <<"KP", IF FP(doc, pending[1]) \in seen THEN "skip" ELSE "yield">>
+  ELSE IF flushing THEN <<"FL", IF PopBatch(mstack)[2] = <<>> THEN "done" ELSE "batch">>
+  ELSE IF doc[mpos].k = "ME" THEN <<"KL", IF mstack = <<>> THEN "end" ELSE "end-flush">>
+  ELSE IF IsMergeKeyEv(doc[mpos]) THEN <<"KL", IF SrcOk(doc, ValOf(doc, mpos)) THEN "merge" ELSE "merge-error">>
+  ELSE LET f == FP(doc, mpos) IN
+       IF f \in seen /\ pol = "Error" THEN <<"KL", "dup">>
+       ELSE IF f \in seen /\ pol = "FirstWins" THEN <<"KL", "skip">> ELSE <<"KL", "yield">>
 
 (* operational result agrees with the declarative requirement *)
 Agree ==
